@@ -1,107 +1,138 @@
-/* WIP -- NOT REGISTERED in spec.py: at the enforced minimum undo block size (1024) the query needs > 10 GB (see spec.py META.outside).
+/*
  * C12/reopen: try_reopen_undo_file() on an undo file built by an independent
- * writer of the format (pattern D), at the REAL minimum undo block size 1024
- * (E2UNDO_MIN_BLOCK_SIZE is enforced by the code under test).
+ * writer of the format (pattern D), at the scaled undo block size 48 (hook H4:
+ * -DE2FSPROGS_VERIF_UNDO_MIN_BLOCK_SIZE=48; KEYS_PER_BLOCK == 2).
  *
- * Accept: a well-formed file with NK keys (fsblk, size symbolic) is accepted and
- * the manager continues exactly behind the last key: key_blk_num, keys_in_block,
- * undo_blk_num, num_keys as a reader of the file computes them, state loses only
- * the FINISHED bit, and the block map holds exactly the undo blocks the keys
- * cover -- in the id convention undo_write_tdb() uses (absolute device undo block
- * = fs-relative block + fs_offset / blocksize), which the `capture` harness assumes.
- * Reject (DAMAGE=n): damaged header magic / header crc / feature words / key block
- * magic / key block crc / superblock mismatch / sb_crc  => error, nothing written
- * to the device.
+ * Accept (DAMAGE=0): a well-formed file with NK keys (fsblk, size symbolic; up to
+ * two key blocks) is accepted and recording continues exactly behind the last
+ * key, in a state that satisfies the invariant the `capture` harness starts from:
+ *   key_blk_num / undo_blk_num where a reader of the file ends, the current key
+ *   block in memory, ROOM FOR THE NEXT KEY in it (keys_in_block < KEYS_PER_BLOCK),
+ *   block map = exactly the fs-relative undo blocks the keys cover (the same
+ *   numbering `capture` uses), num_keys / super / first key block from the header,
+ *   only the FINISHED flag cleared.
+ * ROUNDTRIP: the file is produced by the REAL write_undo_indexes() from an
+ *   in-memory state instead of by the independent writer (accept what it wrote).
+ * FOLLOWUP: after the re-open one more block is written through the manager and
+ *   the in-memory key block must not be overrun.
+ * Reject (DAMAGE=n): one flipped bit at a symbolic position in header magic /
+ * any header field or the header crc / feature words / key block / device
+ * superblock / sb_crc  => refused, and the device is never written.
  */
+#define VF_GETMEM_MIN 1024
 #include "undo_pre.h"
 #include "lib/ext2fs/undo_io.c"
 #include "lib/ext2fs/io_manager.c"
 #include "env.c"
-#define TDS 1024
-#define BS 1024
-#define NBLK 5
-#define UCAP 4
+#define NBLK 6
+#define UCAP 12
 #include "undo_env.h"
 
+#if E2FSPROGS_VERIF_UNDO_MIN_BLOCK_SIZE != TDS
+#error "reopen needs hook H4 with the scaled undo block size"
+#endif
 #ifndef NK
 #define NK 2
 #endif
 #ifndef FSBS
-#define FSBS 1024
+#define FSBS 16
 #endif
 #ifndef DAMAGE
 #define DAMAGE 0
 #endif
 #define SBSYM 96
+#define NKB ((NK + KPB - 1) / KPB)	/* key blocks in the file */
 
 struct vf_in {
 	unsigned char sb[SBSYM];
-	unsigned int fsblk[3];
-	unsigned int size[3];
+	unsigned int fsblk[4];
+	unsigned int size[4];
 	__u32 state, f_compat;
 	unsigned long long fs_offset;
-	unsigned char flip_byte, flip_bit;
+	unsigned int flip_byte;
+	unsigned char flip_bit;
+	unsigned char wblock;		/* FOLLOWUP */
 };
 VF_DECLARE_INPUT(struct vf_in, IN)
 #include "vf_input.inc"
 
 static unsigned char vf_sbfull[SUPERBLOCK_SIZE];
+static unsigned long long vf_keyb_store[TDS / 8];
 
 int main(void)
 {
-	unsigned char exp_w[NW];
-	unsigned long long lblk = 3, Q;
+	unsigned char exp_w[NW], kbuf[TDS];
+	unsigned long long lblk = 2, kpos = 2, exp_kib = 0;
 	errcode_t rc;
-	int i, j;
+	int i, j, u;
 
 	VF_INPUT(IN);
 	vf_setup_channels(&vf_chan, &vf_data);
-	vf_data.undo_blk_num = 3;		/* undo_open() defaults */
-	vf_uf_size = 4096;
+	vf_chan.block_size = 1024;		/* undo_open() defaults */
+	vf_rchan.block_size = 1024;
+	vf_data.undo_blk_num = 3;
+	vf_uf_size = UCAP * TDS;
 	vf_uchan.block_size = 1024;		/* unix_open default */
+	vf_devlen = DEVCAP;
 
 	/* ---- device superblock and its copy in the undo file */
 	for (i = 0; i < SBSYM; i++)
 		vf_sbfull[i] = vf_sb[i] = IN.sb[i];
-	for (i = 0; i < SUPERBLOCK_SIZE; i++)
-		vf_uf_sb[i] = (i == 56 || i == 57) ? (unsigned char) ~vf_sbfull[i] : vf_sbfull[i];
-	vf_uf_sb_blk = 1;
+	vf_wbase = 0;		/* block map ids: fs-relative undo blocks, as in `capture` */
 
-	/* ---- offset / frame */
-#ifdef WITH_OFFSET
-	/* BOUND: fs_offset is a multiple of the undo block size below 2^40 */
-	ASSUME(IN.fs_offset >= TDS && IN.fs_offset % TDS == 0 && IN.fs_offset < (1ULL << 40));
-	ASSUME(IN.f_compat & 1);
-#else
-	ASSUME(IN.fs_offset == 0 && !(IN.f_compat & 1));
+	/* OFFQ: 0 = no fs offset; 1 = 0 < offset < one undo block; 2 = offset of 1..3 undo blocks (any byte value) */
+#ifndef OFFQ
+#define OFFQ 0
 #endif
-	Q = IN.fs_offset / TDS;
-	/* ASSUME: block map ids are absolute device undo blocks (fs-relative + fs_offset/blocksize), the convention of undo_write_tdb() */
-	vf_wbase = Q;
-
-	/* ---- key block (block 2) with NK keys, independent writer */
+#if OFFQ == 0
+	ASSUME(IN.fs_offset == 0 && !(IN.f_compat & 1));
+#elif OFFQ == 1
+	ASSUME(IN.fs_offset > 0 && IN.fs_offset < TDS && (IN.f_compat & 1));
+#else
+	/* BOUND: (OFFQ=2) fs offset below 3 undo blocks, so that both numberings of the block map fit the modelled window */
+	ASSUME(IN.fs_offset >= TDS && IN.fs_offset < 3 * TDS && (IN.f_compat & 1));
+#endif
 	for (i = 0; i < NW; i++)
 		exp_w[i] = 0;
 	for (j = 0; j < NK; j++) {
 		unsigned long long nb, first;
-		/* BOUND: keys of 1..2 undo blocks (the last may be short) on undo-block boundaries inside a device of NBLK undo blocks */
+		/* BOUND: keys of 1..2 undo blocks (the last one of a key may be short) on undo-block boundaries inside a device of NBLK undo blocks */
 		ASSUME(IN.size[j] >= 1 && IN.size[j] <= 2 * TDS);
 		ASSUME(((unsigned long long) IN.fsblk[j] * FSBS) % TDS == 0);
 		nb = ((unsigned long long) IN.size[j] + TDS - 1) / TDS;
 		first = (unsigned long long) IN.fsblk[j] * FSBS / TDS;
 		ASSUME(first + nb <= NBLK);
-		ref_put_le(&vf_uf[2][16 + 16 * j], 8, IN.fsblk[j]);
-		ref_put_le(&vf_uf[2][16 + 16 * j + 8], 4, 0x1234 + j);
-		ref_put_le(&vf_uf[2][16 + 16 * j + 12], 4, IN.size[j]);
-		lblk += nb;
 		for (i = 0; i < NW; i++)
 			if ((unsigned long long) i >= first && (unsigned long long) i < first + nb)
 				exp_w[i] = 1;
 	}
-	ref_put_le(&vf_uf[2][0], 4, 0xCADECADEULL);
-	ref_put_le(&vf_uf[2][4], 4, ref_crc(~0U, vf_uf[2], TDS));
 
-	/* ---- header */
+#ifndef ROUNDTRIP
+	/* ---- independent writer: [key block, data of its keys]* from block 2 on */
+	for (u = 0; u < NKB; u++) {
+		int nj = NK - u * KPB < KPB ? NK - u * KPB : KPB;
+		kpos = lblk;
+		lblk++;
+		for (i = 0; i < TDS; i++)
+			kbuf[i] = 0;
+		for (j = 0; j < nj; j++) {
+			int k = u * KPB + j;
+			ref_put_le(kbuf + 16 + 16 * j, 8, IN.fsblk[k]);
+			ref_put_le(kbuf + 16 + 16 * j + 8, 4, 0x1234 + k);
+			ref_put_le(kbuf + 16 + 16 * j + 12, 4, IN.size[k]);
+			lblk += ((unsigned long long) IN.size[k] + TDS - 1) / TDS;
+		}
+		ref_put_le(kbuf, 4, 0xCADECADEULL);
+		ref_put_le(kbuf + 4, 4, ref_crc(~0U, kbuf, TDS));
+		for (j = 0; j < UCAP; j++)
+			if (kpos == (unsigned long long) j)
+				for (i = 0; i < TDS; i++)
+					vf_uf[j][i] = kbuf[i];
+		exp_kib = nj;
+	}
+	for (i = 0; i < SBSYM; i++)	/* bytes beyond SBSYM are zero in both (static initialisation) */
+		vf_uf_sb[i] = (i == 56 || i == 57) ? (unsigned char) ~vf_sbfull[i] : vf_sbfull[i];
+	vf_uf_sb_blk = 1;
 	vf_uf_hdr[0] = 'E'; vf_uf_hdr[1] = '2'; vf_uf_hdr[2] = 'U'; vf_uf_hdr[3] = 'N';
 	vf_uf_hdr[4] = 'D'; vf_uf_hdr[5] = 'O'; vf_uf_hdr[6] = '0'; vf_uf_hdr[7] = '2';
 	ref_put_le(vf_uf_hdr + 8, 8, NK);
@@ -114,60 +145,138 @@ int main(void)
 	ref_put_le(vf_uf_hdr + 48, 4, IN.f_compat);
 	ref_put_le(vf_uf_hdr + 64, 8, IN.fs_offset);
 	ref_put_le(vf_uf_hdr + 508, 4, ref_crc(~0U, vf_uf_hdr, 508));
+#else
+	/* ---- the REAL write_undo_indexes() writes the current key block, header and superblock copy
+	 * of a recording state with NK (<= KPB) keys in its first key block */
+#if NK > KPB
+#error "ROUNDTRIP models one key block"
+#endif
+	{
+		static const struct undo_private_data fresh;
+		unsigned char *kb = (unsigned char *) vf_keyb_store;
+		vf_data.tdb_data_size = TDS;
+		vf_data.tdb_written = 1;
+		vf_data.keyb = (struct undo_key_block *) vf_keyb_store;
+		vf_data.key_blk_num = 2;
+		lblk = 3;
+		for (j = 0; j < NK; j++) {
+			ref_put_le(kb + 16 + 16 * j, 8, IN.fsblk[j]);
+			ref_put_le(kb + 16 + 16 * j + 8, 4, 0x1234 + j);
+			ref_put_le(kb + 16 + 16 * j + 12, 4, IN.size[j]);
+			lblk += ((unsigned long long) IN.size[j] + TDS - 1) / TDS;
+		}
+		vf_data.undo_blk_num = lblk;
+		vf_data.keys_in_block = NK;
+		vf_data.num_keys = NK;
+		vf_data.offset = (ext2_loff_t) IN.fs_offset;
+		vf_data.hdr.block_size = TDS;
+		vf_data.hdr.state = IN.state;
+		vf_data.hdr.f_compat = IN.f_compat;
+		vf_uchan.block_size = TDS;
+		vf_rchan.block_size = FSBS;
+		rc = write_undo_indexes(&vf_data, 1);
+		ASSUME(rc == 0);
+		/* a new process: private data as undo_open() initialises it */
+		vf_data = fresh;
+		vf_setup_channels(&vf_chan, &vf_data);
+		vf_data.undo_blk_num = 3;
+		vf_chan.block_size = 1024;
+		vf_uchan.block_size = 1024;
+		vf_rchan.block_size = 1024;
+		vf_sb_reads = 0;
+		exp_kib = NK;
+	}
+#endif
 
 	/* ---- damage: one bit, position symbolic */
 	ASSUME(IN.flip_bit < 8);
 #if DAMAGE == 1		/* header magic */
 	ASSUME(IN.flip_byte < 8);
 	for (i = 0; i < 8; i++)
-		if (i == IN.flip_byte) vf_uf_hdr[i] ^= (unsigned char) (1 << IN.flip_bit);
+		if ((unsigned) i == IN.flip_byte) vf_uf_hdr[i] ^= (unsigned char) (1 << IN.flip_bit);
 #elif DAMAGE == 2	/* any header field behind the magic (the crc stub folds the first 96 bytes), or the crc field itself */
-	ASSUME((IN.flip_byte >= 8 && IN.flip_byte < 72) || IN.flip_byte >= 252);
+	ASSUME((IN.flip_byte >= 8 && IN.flip_byte < 72) || (IN.flip_byte >= 508 && IN.flip_byte < 512));
 	for (i = 8; i < 72; i++)
-		if (i == IN.flip_byte) vf_uf_hdr[i] ^= (unsigned char) (1 << IN.flip_bit);
-	for (i = 0; i < 4; i++)
-		if (252 + i == IN.flip_byte) vf_uf_hdr[508 + i] ^= (unsigned char) (1 << IN.flip_bit);
+		if ((unsigned) i == IN.flip_byte) vf_uf_hdr[i] ^= (unsigned char) (1 << IN.flip_bit);
+	for (i = 508; i < 512; i++)
+		if ((unsigned) i == IN.flip_byte) vf_uf_hdr[i] ^= (unsigned char) (1 << IN.flip_bit);
 #elif DAMAGE == 3	/* unknown incompat / rocompat feature, header crc valid */
 	ASSUME(IN.flip_byte < 8);
 	for (i = 0; i < 8; i++)
-		if (i == IN.flip_byte) vf_uf_hdr[52 + i] ^= (unsigned char) (1 << IN.flip_bit);
+		if ((unsigned) i == IN.flip_byte) vf_uf_hdr[52 + i] ^= (unsigned char) (1 << IN.flip_bit);
 	ref_put_le(vf_uf_hdr + 508, 4, ref_crc(~0U, vf_uf_hdr, 508));
-#elif DAMAGE == 4	/* key block: magic, crc field, or a byte of the keys (crc not recomputed) */
-	ASSUME(IN.flip_byte < 16 + 16 * NK && !(IN.flip_byte >= 8 && IN.flip_byte < 16));
-	for (i = 0; i < 16 + 16 * NK; i++)
-		if (i == IN.flip_byte) vf_uf[2][i] ^= (unsigned char) (1 << IN.flip_bit);
+#elif DAMAGE == 4	/* first key block: any bit (magic, crc, reserved, keys) */
+	ASSUME(IN.flip_byte < TDS);
+	for (i = 0; i < TDS; i++)
+		if ((unsigned) i == IN.flip_byte) vf_uf[2][i] ^= (unsigned char) (1 << IN.flip_bit);
 #elif DAMAGE == 5	/* the device's superblock differs from the recorded one */
 	ASSUME(IN.flip_byte < SBSYM);
 	for (i = 0; i < SBSYM; i++)
-		if (i == IN.flip_byte) vf_sb[i] ^= (unsigned char) (1 << IN.flip_bit);
+		if ((unsigned) i == IN.flip_byte) vf_sb[i] ^= (unsigned char) (1 << IN.flip_bit);
 #elif DAMAGE == 6	/* sb_crc wrong, header crc valid */
 	ASSUME(IN.flip_byte < 4);
 	for (i = 0; i < 4; i++)
-		if (i == IN.flip_byte) vf_uf_hdr[40 + i] ^= (unsigned char) (1 << IN.flip_bit);
+		if ((unsigned) i == IN.flip_byte) vf_uf_hdr[40 + i] ^= (unsigned char) (1 << IN.flip_bit);
 	ref_put_le(vf_uf_hdr + 508, 4, ref_crc(~0U, vf_uf_hdr, 508));
 #endif
+	vf_uf_writes = 0;
+	vf_uf_lowest = ~0ULL;
 
 	rc = try_reopen_undo_file(5, &vf_data);
 
 	PROP(vf_real_ops == 0, "re-opening never modifies the device");
-	PROP(vf_rchan.block_size == BS || vf_rchan.block_size == SUPERBLOCK_OFFSET, "backing channel block size is 1024 or restored");
 #if DAMAGE == 0
 	PROP(rc == 0, "a well-formed undo file is accepted");
 	PROP(vf_data.tdb_data_size == TDS && vf_data.tdb_written == 1, "undo block size taken from the header");
 	PROP(vf_data.num_keys == NK && vf_data.super_blk_num == 1 && vf_data.first_key_blk == 2, "header fields taken over");
 #if NK > 0
-	PROP(vf_data.key_blk_num == 2 && vf_data.keys_in_block == NK, "current key block and fill level as in the file");
+	PROP(vf_data.key_blk_num == kpos, "current key block is the last key block of the file");
 	PROP(vf_data.undo_blk_num == lblk, "recording continues directly behind the last key's data");
-	for (j = 0; j < NK; j++)
-		PROP(ref_le((unsigned char *) vf_data.keyb + 16 + 16 * j + 12, 4) == IN.size[j] &&
-		     ref_le((unsigned char *) vf_data.keyb + 16 + 16 * j, 8) == IN.fsblk[j], "keys of the current key block are in memory");
+	PROP(vf_data.keys_in_block == exp_kib, "fill level of the current key block as in the file");
+	for (j = 0; j < (int) (NK - (NKB - 1) * KPB); j++)
+		PROP(ref_le((unsigned char *) vf_data.keyb + 16 + 16 * j + 12, 4) == IN.size[(NKB - 1) * KPB + j] &&
+		     ref_le((unsigned char *) vf_data.keyb + 16 + 16 * j, 8) == IN.fsblk[(NKB - 1) * KPB + j],
+		     "keys of the current key block are in memory");
 #endif
+	PROP(vf_data.keys_in_block < KPB, "Inv of capture: the current key block has room for the next key");
 	PROP(vf_data.hdr.state == (IN.state & ~1U), "only the FINISHED flag is cleared");
 	PROP(vf_data.hdr.f_compat == IN.f_compat, "compat features kept");
+#if OFFQ != 2
+	/* offset < one undo block: the file format's numbering (fs-relative) and undo_write_tdb's (absolute) coincide */
 	for (i = 0; i < NW; i++)
-		PROP(vf_W[i] == exp_w[i], "block map = exactly the undo blocks the recorded keys cover (ids as undo_write_tdb uses them)");
+		PROP(vf_W[i] == exp_w[i], "block map = exactly the undo blocks the recorded keys cover");
+#endif
 	PROP(!vf_w_oob, "env: block map ids stay inside the modelled window");
-#elif DAMAGE == 5
+#if defined(FOLLOWUP) || defined(FOLLOWUP_SAVED)
+	/* The next tool run continues recording: same fs offset (set_option "offset"), one block
+	 * written through the manager.  Numbering-independent statement of "the block map was rebuilt
+	 * consistently": a block a recorded key covers is NOT saved again, any other block IS saved,
+	 * and the in-memory key block (tdb_data_size bytes) is not overrun. */
+	vf_data.offset = (ext2_loff_t) IN.fs_offset;
+	ASSUME(IN.wblock < NBLK);
+	for (i = 0; i < NBLK; i++)
+		if (i == IN.wblock) {
+#ifdef FOLLOWUP_SAVED
+			ASSUME(exp_w[i] == 1);
+#else
+			ASSUME(exp_w[i] == 0);
+#endif
+		}
+	vf_chan.block_size = TDS;
+	vf_rchan.block_size = TDS;
+	vf_real_reads = 0;
+	rc = undo_write_blk64(&vf_chan, IN.wblock, 1, kbuf);
+	PROP(rc == 0, "follow-up write succeeds");
+	PROP(vf_real_ops == 1 && vf_wlo == (unsigned long long) IN.wblock * TDS, "follow-up write reaches the device");
+#ifdef FOLLOWUP_SAVED
+	PROP(vf_real_reads == 0 && vf_data.num_keys == NK, "after re-open a block recorded by an earlier run is not saved again");
+#else
+	PROP(vf_real_reads == 1, "after re-open a block no earlier run recorded is saved before it is overwritten");
+	PROP(vf_data.keys_in_block <= KPB, "follow-up write: keys stay inside the in-memory key block");
+#endif
+	PROP(!vf_w_oob, "env: block map ids stay inside the modelled window (follow-up)");
+#endif
+#elif DAMAGE == 5 || DAMAGE == 6
 	PROP(rc == EXT2_ET_UNDO_FILE_WRONG, "undo file of another filesystem state is refused");
 #else
 	PROP(rc == EXT2_ET_UNDO_FILE_CORRUPT, "a damaged undo file is refused");
